@@ -343,6 +343,18 @@ def walk_rule(chk):
             chk.bad("C08.R5", f"{mi2.rel}:{p.end[2]}", "set_module_by_name", "setattr count", f"set_module_by_name performs {len(sa)} setattr on a path", "any replacement")
             continue
         a = [U(x) for x in sa[0].args]
+        if single is None:
+            # the path does not say (in the vocabulary of the rule) whether the name is dotted: accept either correct form, else undecided
+            sep_yes, sep_no = f.get(f"{nm}.rpartition('.')[1]"), f.get(f"'.' in {nm}")
+            dotted = sep_yes if sep_yes is not None else sep_no
+            nested_forms = ([f"{par}.get_submodule({nm}[:{nm}.rindex('.')])", f"{nm}.split('.')[-1]", child],)
+            if dotted is False and a == [par, nm, child]:
+                chk.ok("C08.R5", f"{mi2.rel}:{p.end[2]}", f"set_module_by_name (top-level): setattr({', '.join(a)[:100]})")
+            elif dotted is True and a in nested_forms:
+                chk.ok("C08.R5", f"{mi2.rel}:{p.end[2]}", f"set_module_by_name (nested): setattr({', '.join(a)[:100]})")
+            else:
+                chk.unknown("C08.R5", f"{mi2.rel}:{p.end[2]}", f"set_module_by_name: path conditions {p.cond_texts()} do not decide whether the name is dotted (setattr({', '.join(a)[:80]}))")
+            continue
         if single:
             ok = a == [par, nm, child]
         else:
